@@ -47,15 +47,18 @@ def World.node (w : World) (n : Nat) : Node := w.getD n (newNode .client)
 def defines (w : World) (n : Nat) (name : String) : Bool :=
   (defsOf (w.node n).domain).any (·.name == name)
 
+/-- One iteration of `for x in self.links` inside `provider`. -/
+def provStep (rec : Nat → Option Nat) (seen : List Nat) (acc : Option Nat) (x : Nat) : Option Nat :=
+  match acc with
+  | some r => some r
+  | none => if seen.contains x then none else rec x
+
 /-- `Properties.provider(name, history)`; `path` = the nodes currently on the search path. -/
 def findProv (w : World) (name : String) : Nat → Nat → List Nat → Option Nat
   | 0, _, _ => none
   | fuel + 1, n, path =>
     if defines w n name then some n
-    else (w.node n).links.foldl (fun acc x =>
-      match acc with
-      | some r => some r
-      | none => if (n :: path).contains x then none else findProv w name fuel x (n :: path)) none
+    else (w.node n).links.foldl (provStep (fun x => findProv w name fuel x (n :: path)) (n :: path)) none
 
 /-- The provider of `name` seen from node `n` (the node itself when nobody defines it). -/
 def provider (w : World) (n : Nat) (name : String) : Nat :=
@@ -72,11 +75,14 @@ def lookupDef (dom : Domain) (name : String) : Option OptDef := (defsOf dom).fin
 def accepts (d : OptDef) (v : Val) : Bool :=
   v.isNone || d.classes.isEmpty || v.isa.any (d.classes.contains ·)
 
-def setValue (vals : List (String × Val)) (name : String) (v : Val) : List (String × Val) :=
-  vals.map fun kv => if kv.1 == name then (name, v) else kv
+def setValue : List (String × Val) → String → Val → List (String × Val)
+  | [], _, _ => []
+  | (k, x) :: rest, name, v =>
+    if k = name then (k, v) :: setValue rest name v else (k, x) :: setValue rest name v
 
-def getValue (vals : List (String × Val)) (name : String) : Val :=
-  ((vals.find? (·.1 == name)).map (·.2)).getD Val.none
+def getValue : List (String × Val) → String → Val
+  | [], _ => Val.none
+  | (k, x) :: rest, name => if k = name then x else getValue rest name
 
 def modifyNode (w : World) (n : Nat) (f : Node → Node) : World :=
   w.mapIdx fun i x => if i = n then f x else x
@@ -105,6 +111,22 @@ def unlink (w : World) (a b : Nat) : World :=
   modifyNode (modifyNode w a fun x => { x with links := x.links.filter (· != b) }) b
     fun x => { x with links := x.links.filter (· != a) }
 
+/-- `TpLinker.updated(properties, prev, next)`: unlink the old transport's options, link the new
+one's. A refused link is reported, but by then the value is stored and the old link is gone. -/
+def relink (w1 : World) (p : Nat) (prev next : Val) : World × Option Err :=
+  let w2 := match prev.tnode with
+    | some t => unlink w1 p t
+    | none => w1
+  match next.tnode with
+  | some t => match link w2 p t with
+    | .ok w3 => (w3, none)
+    | .error _ => (w2, some .linkError)
+  | none => (w2, none)
+
+/-- The store step of `Properties.__set` at the providing node `p`. -/
+def store (w : World) (p : Nat) (name : String) (v : Val) : World :=
+  modifyNode w p fun x => { x with values := setValue x.values name v }
+
 /-- `Properties.set(name, value)` entered at node `n`. The world is returned even on a link
 error because the value was already stored by then. -/
 def set (w : World) (n : Nat) (name : String) (v : Val) : World × Option Err :=
@@ -115,19 +137,9 @@ def set (w : World) (n : Nat) (name : String) (v : Val) : World × Option Err :=
     if !accepts d v then (w, some .attributeError)
     else
       let v' := if v.isNone then defaultVal d else v
-      let prev := getValue (w.node p).values name
-      let w1 := modifyNode w p fun x => { x with values := setValue x.values name v' }
+      let w1 := store w p name v'
       if d.linker = "" then (w1, none)
-      else
-        -- TpLinker.updated(properties, prev, next)
-        let w2 := match prev.tnode with
-          | some t => unlink w1 p t
-          | none => w1
-        match v'.tnode with
-        | some t => match link w2 p t with
-          | .ok w3 => (w3, none)
-          | .error e => (w2, some e)
-        | none => (w2, none)
+      else relink w1 p (getValue (w.node p).values name) v'
 
 /-- `Properties.get(name)` entered at node `n`. -/
 def get (w : World) (n : Nat) (name : String) : Except Err Val :=
